@@ -4099,8 +4099,9 @@ fn add_answer_of_service_as(
     qtype: RRType,
     intf_addrs: Vec<IpAddr>,
 ) {
+    let mut srv_added = false;
     if qtype == RRType::SRV || qtype == RRType::ANY {
-        out.add_answer(
+        srv_added = out.add_answer(
             msg,
             DnsSrv::new(
                 entry_name,
@@ -4126,7 +4127,9 @@ fn add_answer_of_service_as(
         );
     }
 
-    if qtype == RRType::SRV {
+    // The address records are additionals of the SRV answer: they stay out with it
+    // when it is suppressed by a known answer.
+    if qtype == RRType::SRV && srv_added {
         for address in intf_addrs {
             out.add_additional_answer(DnsAddress::new(
                 hostname,
